@@ -46,6 +46,11 @@ UNITS = [
          tiers=[t], kind='bounded', timeout=1500, object_bits=11, unwindset=['h_merge_bounded.0:%d' % (len(chunk) + 2)])
     for t in ('quick', 'thorough') for ci, chunk in enumerate(chunks(shapes(t), 14 if t == 'quick' else 10))
 ] + [
+    dict(leaf('merge', 'sp_merge', MERGE_RX), name='merge_self_bounded', harness='h_merge_self_bounded', enforce=None,
+         spec=['C06/sp_spec.h', 'C06/h_bounded.c'], defines=['BND_SHAPES {0,0,0,0,0,0}', 'BND_SELF 1', 'BND_ASSIGN 0', 'sp_move_assign(a,b) ((SP*)0)'], unwind=12,
+         bounded='self-merge (sp << std::move(sp)) of points with 0..5 handles, both representations', kind='bounded', timeout=600, object_bits=10, unwindset=['h_merge_self_bounded.0:11'],
+         replay=dict(src='c06_self_merge.cpp', flags=['-O1', '-g'])),
+] + [
     leaf('move_assign', 'sp_move_assign', r'^cocls::suspend_point<void>::operator=\(cocls::suspend_point<void>&&\)$', {'sp_merge': MERGE_RX}, boundary=[MERGE_RX]),
     leaf('ctor_default', 'sp_ctor_default', r'^cocls::suspend_point<void>::suspend_point\(\)$'),
     leaf('await_ready', 'sp_await_ready', r'^cocls::suspend_point<void>::await_ready\(\) const$'),
